@@ -153,7 +153,50 @@ func c02Adversarial(name string, rnd *rand.Rand, variant int, hist map[string]in
 	two64 := new(big.Int).Lsh(big.NewInt(1), 64)
 	ten40 := new(big.Int).Exp(big.NewInt(10), big.NewInt(40), nil)
 	curs := []string{"OLT", "ETH", "XYZ", ""}
+	last := map[string]*Key{"SEND": &u4, "DOMAIN_SEND": &u0, "PROPOSAL_WITHDRAW_FUNDS_ELIGIBLE": &u4, "WITHDRAW": &v1.Stake, "WITHDRAW_SELF": &self.Stake,
+		"WITHDRAW_REWARD": &v0.Stake, "PROPOSAL_CREATE": &u3, "PROPOSAL_FUND": &u3, "DOMAIN_CREATE": &u3, "DOMAIN_RENEW": &u0, "DOMAIN_PURCHASE": &u3,
+		"STAKE": &v0.Stake, "STAKE_SELF": &self.Stake}
 	for ki, k := range kinds {
+		// ---- refused in the FEE step after a successful handler (gas limit 1), immediately followed by a transaction that spends
+		// from the account the refused handler touched last: more than it owns (must be refused: the refused credit left no
+		// trace) and, in a second pair, nearly all it owns (must be accepted: the refused debit left no trace) ----
+		if lk := last[k.Name]; lk != nil {
+			for pi, over := range []bool{true, false} {
+				amt := big.NewInt(3)
+				if k.Unit.Cmp(unitOne) == 0 {
+					amt = new(big.Int).Set(c02E18) // 1 OLT
+				}
+				if k.Name == "DOMAIN_CREATE" || k.Name == "DOMAIN_PURCHASE" {
+					amt, _ = new(big.Int).SetString("1002000000000000000000", 10)
+				}
+				if k.Name == "PROPOSAL_CREATE" {
+					amt = big.NewInt(1000000000)
+				}
+				if k.Name == "PROPOSAL_FUND" || k.Name == "PROPOSAL_WITHDRAW_FUNDS_ELIGIBLE" {
+					amt = big.NewInt(50)
+				}
+				GAS = 1
+				t1 := k.Build(action.Amount{Currency: "OLT", Value: bigAmt(amt.String())}, m())
+				GAS = 1000000
+				own := c02Led(r.cur, lk.Addr, c02BBal, "OLT")
+				spend := new(big.Int).Add(own, new(big.Int).Div(new(big.Int).Mul(amt, k.Unit), big.NewInt(2))) // more than it owns, less than own + refused credit
+				if !over {
+					spend = new(big.Int).Sub(own, c02E18) // nearly everything it really owns
+				}
+				if spend.Sign() <= 0 {
+					continue
+				}
+				to := attacker.Addr
+				if !over {
+					to = lk.Addr // to itself: the debit of nearly everything must succeed, and the account stays funded for what follows
+				}
+				t2 := txSend(*lk, to, action.Amount{Currency: "OLT", Value: bigAmt(spend.String())}, m())
+				r.block(&BlockIn{Txs: [][]byte{t1, t2}, Absent: map[int]bool{}}, []string{
+					fmt.Sprintf("feefail %s gas limit 1 (refused in the fee step after the handler ran)", k.Name),
+					fmt.Sprintf("feefail-next SEND by the account %s touched last: %s", k.Name, []string{"more than it owns", "nearly all it owns"}[pi])})
+				hist["feefail:"+k.Name]++
+			}
+		}
 		// ---- amount series ----
 		for ci, cur := range curs {
 			base := new(big.Int).Div(k.Base(r.cur), k.Unit)
